@@ -70,9 +70,13 @@ static int drv_io(const Opts &o)
 		std::ostringstream os; os << v.v; std::string txt = os.str();
 		emit("codec.str62 " + v.str() + " => " + hexs(txt));
 		{ int rc = mpz_set_str(w, txt.c_str(), TMCG_MPZ_IO_BASE); emit("codec.parse62 " + hexs(txt) + " => " + (rc < 0 ? std::string("none") : w.str()));
-		  emit(std::string("io.roundtrip int ") + hexs(txt) + " => " + ((rc == 0 && !mpz_cmp(v, w)) ? "1" : "0")); }
+		  // the library's own importer: operator>> (std::istream&, mpz_ptr) reads one line
+		  std::istringstream is(txt + "\n"); Z w2; std::string got = guarded([&]() { is >> w2.v; return w2.str(); });
+		  emit("io.stream.int " + hexs(txt) + " => " + got);
+		  emit(std::string("io.roundtrip int ") + hexs(txt) + " => " + ((rc == 0 && !mpz_cmp(v, w) && got == v.str()) ? "1" : "0")); }
 		{ std::string m = mutate_text(txt, g); if (m.find('\0') != m.npos) m = m.substr(0, m.find('\0'));
-		  int rc = mpz_set_str(w, m.c_str(), TMCG_MPZ_IO_BASE); emit("codec.parse62 " + hexs(m) + " => " + (rc < 0 ? std::string("none") : w.str())); }
+		  int rc = mpz_set_str(w, m.c_str(), TMCG_MPZ_IO_BASE); emit("codec.parse62 " + hexs(m) + " => " + (rc < 0 ? std::string("none") : w.str()));
+		  if (m.find('\n') == m.npos && m.size() + 2 < TMCG_MAX_VALUE_CHARS) { std::istringstream is(m + "\n"); Z w2; std::string got = guarded([&]() { is >> w2.v; return w2.str(); }); emit("io.stream.int " + hexs(m) + " => " + got); } }
 		{ // strtoul as the importers use it
 		  static const char *vals[] = { "", "0", "7", "512", " 12", "12 ", "+5", "-1", "-", "+", "0x10", "010", "18446744073709551615", "18446744073709551616", "99999999999999999999", "-18446744073709551615", "1e3", "\t3", "3\n" };
 		  std::string t = (g.below(3) == 0) ? std::to_string(g.next() >> g.below(64)) : vals[g.below(19)];
